@@ -58,23 +58,25 @@ where
             self.last_val = val;
         }
         if self.q_vals.len() >= self.window_len {
-            let old_val = self.q_vals.pop_front().unwrap();
-            if old_val > self.oldest_val {
-                self.cu = self.cu - (old_val - self.oldest_val);
-            } else {
-                self.cd = self.cd - (self.oldest_val - old_val);
-            }
-            self.oldest_val = old_val;
+            self.oldest_val = self.q_vals.pop_front().unwrap();
         }
         self.q_vals.push_back(val);
-
-        // accumulate 'closes up' and 'closes down'
-        if val > self.last_val {
-            self.cu = self.cu + val - self.last_val;
-        } else {
-            self.cd = self.cd + self.last_val - val;
-        }
         self.last_val = val;
+
+        // sum 'closes up' and 'closes down' of the window afresh: running sums keep rounding
+        // residue of the values that have left the window, so that cu + cd is a tiny non-zero
+        // number on a flat window and the ratio below is noise of any size
+        self.cu = T::zero();
+        self.cd = T::zero();
+        let mut prev = self.oldest_val;
+        for v in self.q_vals.iter() {
+            if *v > prev {
+                self.cu = self.cu + (*v - prev);
+            } else {
+                self.cd = self.cd + (prev - *v);
+            }
+            prev = *v;
+        }
 
         if self.cu + self.cd != T::zero() {
             self.out = (self.cu - self.cd) / (self.cu + self.cd);
